@@ -611,13 +611,8 @@ pub fn mut_scmp(c: &mut Ctx, s: &mut ScmpPayloadView, k: usize) -> Option<&'stat
                     0 => mutx!(c, "unk.set_code(ff)", v.set_code(0xff)),
                     1 => mutx!(c, "unk.set_checksum", v.set_checksum(0xffff)),
                     2 => mutx!(c, "unk.message_specific_data_mut.fill(0)", v.message_specific_data_mut().fill(0)),
-                    3 => mutx!(c, "unk.set_message_type(1)", v.set_message_type(1)),
-                    4 => mutx!(c, "unk.set_message_type(5)", v.set_message_type(5)),
-                    5 => mutx!(c, "unk.set_message_type(6)", v.set_message_type(6)),
-                    6 => mutx!(c, "unk.set_message_type(128)", v.set_message_type(128)),
-                    7 => mutx!(c, "unk.set_message_type(130)", v.set_message_type(130)),
-                    8 => mutx!(c, "unk.set_message_type(131)", v.set_message_type(131)),
-                    9 => mutx!(c, "unk.set_message_type(255)", v.set_message_type(255)),
+                    // `set_message_type` is an `unsafe fn` since /repo commit e298f7a (it was safe and
+                    // let callers read/write out of bounds); unsafe fns are outside C02's scope.
                     _ => None,
                 },
             }
